@@ -27,6 +27,16 @@ def script_spec(engine, gtype, policy, n, seed=11, variant=None):
     if variant == "units":
         sc["units"] = ["µm", "s", "nmol"]
         sc["system"]["units"] = ["µm", "s", "molecule"]
+    elif variant == "species-order":
+        # the same network with its species listed in the opposite order (the PREVIOUS simulation uses the listed order)
+        sy = sc["system"]
+        n = len(sy["state"]) // 2
+        sy["species"] = list(reversed(sy["species"]))
+        sy["state"] = sy["state"][n:] + sy["state"][:n]
+    elif variant == "denormal":
+        # amounts at the bottom of the double range: gradual underflow must not depend on what ran before
+        sc["system"]["state"] = [v * 1e-308 for v in sc["system"]["state"]]
+        sc["isp"] = "none"
     elif variant == "bc":
         if sc["system"]["space"]["type"] == "grid":
             sc["system"]["space"]["bc"] = {"x": "periodical"}
@@ -237,6 +247,10 @@ def check_history(case):
                 psc["system"]["state"] = psc["system"]["state"][:2] + [3.25, 7.0]      # a different number of large entries
             if case.get("variant") == "bc" and psc["system"]["space"]["type"] == "grid":
                 psc["system"]["space"]["bc"] = {}      # same grid dimensions, the other boundary setting
+            if case.get("variant") == "species-order":
+                psc = script_spec(prev[0], prev[1], "on_iteration", 3, seed=5)      # listed order [A, B]; this run uses [B, A]
+            if case.get("variant") == "denormal":
+                psc = script_spec(prev[0], prev[1], "on_iteration", 3, seed=5)      # an ordinary simulation before
             e_prev = eng.make_engine(prev[0])
             run_plain(e_prev, models.build_script(psc))
             if case["finalize_prev"]:
@@ -389,7 +403,9 @@ def gen_cases(tier, seed0):
                     if prev is None and not fin:
                         continue
                     for pol in (("on_t_sample", "on_iteration") if tier == "thorough" else ("on_t_sample",)):
-                        for var in (None, "units", "redist", "bc"):
+                        for var in (None, "units", "redist", "bc", "species-order", "denormal"):
+                            if var == "denormal" and this[0] != "euler":
+                                continue
                             c = {"sub": "history", "prev": prev, "this": list(this), "same_object": same, "finalize_prev": fin, "policy": pol}
                             if var:
                                 c["variant"] = var
